@@ -261,13 +261,19 @@ class LiteralProvider(LoaderProvider, DumperProvider):
 
             # since True == 1 and False == 0
             def literal_loader(data):
-                if (type(data), data) in allowed_values_with_types:
-                    return data
+                try:
+                    if (type(data), data) in allowed_values_with_types:
+                        return data
+                except (TypeError, ArithmeticError):  # unhashable or incomparable data is not a variant
+                    pass
                 raise BadVariantLoadError(allowed_values_repr, data)
         else:
             def literal_loader(data):
-                if data in allowed_values:
-                    return data
+                try:
+                    if data in allowed_values:
+                        return data
+                except (TypeError, ArithmeticError):  # unhashable or incomparable data is not a variant
+                    pass
                 raise BadVariantLoadError(allowed_values_repr, data)
 
         if bytes_cases and not enum_loaders:
